@@ -13,7 +13,7 @@ vars == <<g, op>>
 ImplSeq(x) == Impl[x].ops
 ImplSet(x) == { ImplSeq(x)[i] : i \in 1..Len(ImplSeq(x)) }
 
-Init == g \in Groups /\ op = Norm(Id)
+Init == g \in (Groups \cup DOMAIN Impl) /\ op = Norm(Id)
 Next == \E h \in ImplSet(g) : op' = Norm(Compose(h, op)) /\ UNCHANGED g
 Spec == Init /\ [][Next]_vars
 
@@ -24,11 +24,15 @@ Closed == op \in NormSet(ImplSet(g))
 \* read back), paired with the family of the cells the library builds for the group
 StoredOK == /\ Impl[g].stored = Impl[g].ops
             /\ Len(Impl[g].stateFamilies) = 2
-            /\ \A i \in 1..Len(Impl[g].stateFamilies) : Impl[g].stateFamilies[i] = RefFamily(g)
-TableOK == /\ Impl[g].integral
-           /\ IsGroupTable(ImplSet(g), g, Impl[g].family)
+            /\ \A i \in 1..Len(Impl[g].stateFamilies) : Impl[g].stateFamilies[i] = Impl[g].family
+\* the seven named groups against their reference tables; any further group the library offers
+\* by name against the axioms alone
+TableOK == /\ g \in DOMAIN Impl
+           /\ Impl[g].integral
+           /\ IF g \in Groups THEN IsGroupTable(ImplSet(g), g, Impl[g].family)
+              ELSE IsSomeGroupTable(ImplSet(g), Impl[g].family)
            /\ StoredOK
 ReferenceOK == RefOK
-Emit == PrintT(<<"EMIT", ToJson([group |-> g, op |-> op, order |-> Order(g),
+Emit == PrintT(<<"EMIT", ToJson([group |-> g, op |-> op, order |-> Len(ImplSeq(g)),
                                   content |-> Content(NormSet(ImplSet(g)))])>>)
 =============================================================================
